@@ -472,7 +472,8 @@ Record stop_post (s s' : state) : Prop := {
   sp_wg : wg s' = wg s;
   sp_nbar : nbar s' = nbar s;
   sp_free : sem_free s' = sem_free s;
-  sp_ops : ops s' = ops s
+  sp_ops : ops s' = ops s;
+  sp_inq : inq s' = stop_queue (inq s)
 }.
 
 Lemma stop_locked_spec c s s' os : stop_locked c s = (s', os) ->
@@ -485,11 +486,12 @@ Proof.
     match type of Hs with context [fold_left ?f ?l ?s0] =>
       pose proof (fold_cancel_spec l s0) as Fc; cbv zeta in Fc;
       set (s4 := fold_left f l s0) in *; set (s3 := s0) in * end.
-    destruct Fc as (W & X & L & (Eu & Ed & Er & Ew & _ & Eb & _ & _ & _ & Eo) & F & U).
+    destruct Fc as (W & X & L & (Eu & Ed & Er & Ew & _ & Eb & Ei & _ & _ & Eo) & F & U).
     assert (T3 : tasks s3 = tasks s /\ sem_wait s3 = sem_wait s /\ units s3 = units s /\ dp s3 = dp s
-                 /\ rd s3 = rd s /\ wg s3 = wg s /\ nbar s3 = nbar s /\ sem_free s3 = sem_free s /\ ops s3 = ops s).
+                 /\ rd s3 = rd s /\ wg s3 = wg s /\ nbar s3 = nbar s /\ sem_free s3 = sem_free s /\ ops s3 = ops s
+                 /\ inq s3 = stop_queue (inq s)).
     { unfold s3. destruct (work_closed (s <| closes ::= S |> <| inq ::= stop_queue |>)); cbn; repeat split. }
-    destruct T3 as (T3 & W3 & U3 & D3 & R3 & G3 & B3 & F3 & O3).
+    destruct T3 as (T3 & W3 & U3 & D3 & R3 & G3 & B3 & F3 & O3 & I3).
     assert (Wk : wait_ok s -> wait_ok s4).
     { intros H. apply W. unfold wait_ok. rewrite W3, T3. exact H. }
     clearbody s4. clearbody s3.
@@ -573,7 +575,7 @@ Definition frame_label (l : label) : bool :=
   end.
 
 Lemma step_raw_frame s l s' os : frame_label l = true -> step_raw s l = Some (s', os) ->
-  core s' = core s /\ crash s' = crash s.
+  core s' = core s /\ crash s' = crash s /\ inq s' = inq s.
 Proof.
   destruct l; cbn [frame_label]; try discriminate; intros _; cbn [step_raw]; intros H.
   - injection H as <- <-; auto.
